@@ -1950,3 +1950,8 @@ mutant("c18-offclose-skips-last", "C18", "C18-D8", "client_manager_events.go",
 		f[i] = &_f[i]
 	}
 	m.closeHandlers.off(f[:len(f)/2]...)""")
+
+# round 3 C15: the ack-timeout purge takes ack-less events with it
+mutant("c15-purge-takes-ackless-events", "C15", "C15-D5", "client_socket.go",
+       "			if packet.ackID != nil && *packet.ackID == id {",
+       "			if packet.ackID == nil || *packet.ackID == id {")
